@@ -47,9 +47,6 @@ end
 
 def validUtf8 (s : Bytes) : Bool := lossy s == s
 
-/-- `f64::to_string` of an integral float -/
-def intText (i : Int) : Bytes := s2b (toString i)
-
 mutual
 /-- `lua_to_resp`.  A table is an error / status reply if `t.get::<String>("err" / "ok")`
     succeeds (the field must be valid UTF-8), otherwise the array `t[1], t[2], …` up to the
@@ -59,7 +56,7 @@ def luaToResp : LuaVal → Resp
   | .bool true => .int 1
   | .bool false => .bulk none
   | .int i => .int i
-  | .num i => .bulk (some (intText i))     -- Redis: integer (truncated)
+  | .num i => .int i                       -- `n as i64` (the float is integral)
   | .str b => .bulk (some b)
   | .okT s => if validUtf8 s then .simple s else .array (some [])
   | .errT s => if validUtf8 s then .error s else .array (some [])
